@@ -1020,6 +1020,9 @@ func (x *Exec) callModifies(c *ssa.CallCommon, mods map[string]bool) bool {
 			}
 			return all
 		}
+		if x.ifaceOfPurePkg(c) {
+			return false
+		}
 		return true
 	}
 	callee := c.StaticCallee()
@@ -1085,6 +1088,12 @@ func (x *Exec) callModifies(c *ssa.CallCommon, mods map[string]bool) bool {
 		return all
 	}
 	return true
+}
+
+// ifaceOfPurePkg: the invoked method belongs to an interface declared in one of the library packages whose functions
+// are assumed not to write caller-visible memory (go/types.Type.Underlying, go/types.Object.Name, ...).
+func (x *Exec) ifaceOfPurePkg(c *ssa.CallCommon) bool {
+	return c.IsInvoke() && c.Method != nil && c.Method.Pkg() != nil && x.db.PurePkg[c.Method.Pkg().Path()]
 }
 
 func (x *Exec) dynPure() bool { return x.fc != nil && x.fc.hasGhost("dyncalls-pure") }
@@ -1165,6 +1174,9 @@ func (x *Exec) modSumWalk(fn *ssa.Function, heaps map[string]bool, seen map[*ssa
 				}
 				if c.IsInvoke() {
 					if ms := x.methodSpec(c); ms != nil && (ms.Mode == "fn" || ms.Mode == "log") {
+						continue
+					}
+					if x.ifaceOfPurePkg(c) {
 						continue
 					}
 					impls := x.implementers(c.Value.Type())
